@@ -18,8 +18,12 @@ def run(ctx):
     grid, sims = gen_programs(ctx, True, "c13")
     import random
     rnd = random.Random(ctx.seed)
-    grid = rnd.sample(grid, min(len(grid), 150 if quick else 1200))
-    cases = grid + sims[: (120 if quick else 250)]
+    if quick:
+        # every `//` and `%` program (version-specific operator tables show only for some operands) + a sample of the rest
+        divmod_ = [c for c in grid if any(st["k"] == "bin" and st["op"] in ("//", "%") for st in c["prog"])]
+        rest = [c for c in grid if c not in divmod_]
+        grid = divmod_ + rnd.sample(rest, min(len(rest), 250))
+    cases = grid + sims[: (80 if quick else 250)]
     votes = cpython_vote([c["prog"] for c in cases], DEFAULT_PY)
     srcs = [to_erg(c["prog"]) for c in cases]
     targets = ["3.7", "3.11", "3.9"] if quick else ["3.7", "3.8", "3.9", "3.10", "3.11"]
